@@ -8,12 +8,19 @@ package metadata
 
 // ---- which topic names are accepted (topic creation and auto-creation both end in Store.CreateTopic) ----
 
+// The validator: every name it lets through is safe (loop: the scanned prefix holds no separator).
+//@ func validTopicName
+//@   ensures [C22.validator_sound] result ==> c22SafeTopic(name)
+//@   loop 1 invariant 0 <= i && i <= len(name) && !contains(name[0:i], "/") && !contains(name[0:i], ":")
+//@
+// A topic is stored (appended to the topic list) and returned only under a safe name.
 //@ func (s *InMemoryStore) CreateTopic
-//@   ensures [C22.accepted_names_safe] result1 == nil ==> c22SafeTopic(spec.Name)
+//@   at append#* before assert [C22.stored_names_safe] c22SafeTopic(spec.Name)
+//@   ensures [C22.accepted_names_safe] result0 != nil ==> c22SafeTopic(spec.Name)
 //@
 //@ func (s *EtcdStore) CreateTopic
 //@   requires s.metadata != nil
-//@   ensures [C22.etcd_accepted_names_safe] result1 == nil ==> c22SafeTopic(spec.Name)
+//@   ensures [C22.etcd_accepted_names_safe] result0 != nil ==> c22SafeTopic(spec.Name)
 
 // ---- every key builder returns exactly the specified key ----
 
@@ -37,3 +44,18 @@ package metadata
 //@   ensures [C22.shape.partitionKey] result == c22PartitionKey(topic, fmtd(partition))
 //@ func consumerKey
 //@   ensures [C22.shape.consumerKey] result == c22ConsumerKey(group, topic, fmtd(partition))
+
+// ---- prefix / substring scans keyed by a topic name: each uses exactly the specified prefix ----
+// (the lemmas C22.lemma.etcd_topic_prefix_vs_*, etcd_consumer_topic_infix_hits_own_keys_only and
+// mem_topic_prefix_hits_own_keys_only say that these prefixes match keys of that topic only)
+
+//@ func (s *EtcdStore) deleteTopicOffsets
+//@   requires s.client != nil
+//@   at Delete#1 before assert [C22.etcd_delete_uses_topic_prefix] arg1 == c22TopicEtcdPrefix(topic)
+//@
+//@ func (s *EtcdStore) deleteConsumerOffsets
+//@   requires s.client != nil
+//@   at Contains#1 before assert [C22.etcd_consumer_delete_uses_topic_infix] arg1 == c22ConsumerTopicInfix(topic)
+//@
+//@ func (s *InMemoryStore) DeleteTopic
+//@   at HasPrefix#1 before assert [C22.mem_delete_uses_topic_prefix] arg1 == name + ":"
